@@ -1,4 +1,4 @@
-\* C20 quick: two gap deviations and a comment on the pair shapes
+\* C20 quick: every pair of gap deviations on the pair shapes, two base layouts
 SPECIFICATION LSpec
 CONSTANTS
   Foci = {"lit"}
@@ -6,8 +6,8 @@ CONSTANTS
   LFoci = {"pairs"}
   Bases = {"canon", "wide"}
   MaxGap = 2
-  MaxCm = 1
-  CmKinds = {"/*", "//"}
+  MaxCm = 0
+  CmKinds = {}
   MutKinds = {}
   PoolN = 1
 INVARIANTS RescanOK CommentsOK GapsLegal TreeKept LShapesOK LExport
